@@ -5,6 +5,7 @@ Everything here is about data regenerated from /repo's sources on every run
 -/
 import LA.Proofs.TablesRT
 import LA.Model.TablesCat
+import LA.Proofs.StateFacts
 
 namespace LA.C20
 open LA LA.MsgType LA.Tables
@@ -238,3 +239,9 @@ example : LA.Gen.MsgTypes.typeToName.length > 200 ∧ LA.Gen.Errno.errnoToName.l
     LA.Gen.Syscalls.tables.length = 9 ∧ LA.Gen.NormNames.syscalls.length > 100 := by decide +kernel
 
 end LA.C20
+
+/-! ### the code keeps nothing between calls that the model does not have -/
+
+/-- The tables are fixed once `init` has run: packages auparse and aucoalesce write no package-level variable afterwards
+(the id caches of `ResolveIDs` aside) and package rule only inside its five table builders, which nothing but `init` mentions. -/
+theorem C20_tables_are_fixed_after_init : LA.StateFacts.ofPkg "auparse" = [] ∧ LA.StateFacts.ofPkg "aucoalesce" = LA.StateFacts.coalesceIdCaches ∧ LA.StateFacts.ofPkg "rule" = LA.StateFacts.ruleTableBuilders := by decide
